@@ -452,7 +452,7 @@ class C07(EHistCheck):
         viol = []
         detail = {"files": {"x.ms": src}, "res": res.brief(), "expected_lines": it.out}
         sig = {"kind": "", "site": site, "nesting": str(nesting), "owner": owner}
-        if res.exit != 0 and "Did not compile" in res.err:
+        if driver.compile_rejected(res):
             return {"outcome": "site-rejected", "nontrivial": False, "tags": ["site-rejected", f"srej-{site}"], "show": res.out[-300:]}
         if not ok:
             # a prefix can push the captured value out of a site's domain (index 40 of a 4-element list): the failure is the expected behaviour
